@@ -124,6 +124,42 @@ def seed():
     a = A.make_lzx_stored(rng, p)
     _write("lzx-data-flip", a, ("flip", len(a["data"]) - 10, 0), "reject", "LZX stored entry data, one bit (data CRC-32)", p)
     _write("lzx-header-crc-flip", a, ("flip", 10 + 26, 0), "reject", "LZX entry header CRC-32, one bit", p)
+    # --- boundary check values: a member whose CRC-16 is exactly 0x0000 (seeded defect m5: ArcFS's "stored 0 = not
+    #     recorded" rule leaked into the ARC/Spark comparison)
+    p0 = A.force_tail(A.crc16_arc, p, 2, 0)
+    a = A.make_arc(rng, p0, 2)
+    _write("arc-crc0000-stored-data-flip", a, ("flip", 29 + 1084 + 11, 2), "reject",
+           "seeded m5: ARC stored member whose CRC-16 is 0x0000 -- a shared helper ignored stored CRC 0 (ArcFS rule) for ARC", p0)
+    a = A.make_arc(rng, p0, 3)
+    _write("arc-crc0000-packed-data-flip", a, ("flip", len(a["data"]) - 60, 5), "reject",
+           "seeded m5: ARC packed (RLE90) member whose CRC-16 is 0x0000", p0)
+    p32 = A.force_tail(A.crc32_bitwise, p, 4, 0)
+    a = A.make_zip(rng, p32, zipfile.ZIP_STORED)
+    _write("zip-crc00000000-data-flip", a, ("flip", a["zip"]["data"] + 1084 + 5, 1), "reject",
+           "zip stored member whose CRC-32 is 0x00000000", p32)
+    a = A.make_gzip(rng, A.force_tail(A.crc32_bitwise, p, 4, 0xFFFFFFFF), level=0)
+    _write("gzip-crcffffffff-data-flip", a, ("flip", a["start"] + 5 + 1084 + 2, 4), "reject",
+           "gzip (stored blocks) whose CRC-32 is 0xFFFFFFFF", A.force_tail(A.crc32_bitwise, p, 4, 0xFFFFFFFF))
+    pb = A.force_tail(A.crc32_bz, p, 4, 0)
+    a = A.make_bz2(rng, pb, level=1)
+    lay = A.bz_layout(a["data"], pb)
+    _write("bzip2-crc00000000-streamcrc-flip", a, ("flip", (lay["eos_bit"] + 48 + 9) // 8, 7 - (lay["eos_bit"] + 48 + 9) % 8), "reject",
+           "bzip2 whose block and stream CRC are 0x00000000: one bit of the stream CRC", pb)
+    # --- several loadable members (seeded defect m6: decrunch_zip continued with the next member after a failed extraction)
+    ps = [p, A.synth_mod(rng, tiny=True), A.synth_mod(rng, tiny=True)]
+    a = A.make_zip_multi(rng, ps)
+    _write("zip-multi-first-member-data-flip", a, ("flip", a["zip"]["data"] + 40, 3), "reject",
+           "seeded m6: corruption inside the first loadable zip member was swallowed and the second member's payload returned", p)
+    _write("zip-multi-first-member-crc-flip", a, ("flip", a["zip"]["cdh"] + 17, 6), "reject",
+           "seeded m6: central-directory CRC-32 of the first loadable member", p)
+    a = A.make_arc_multi(rng, ps)
+    o = a["fields"]["blockdata1_head"][0]
+    _write("arc-multi-first-member-data-flip", a, ("flip", o + 30, 0), "reject",
+           "ARC with several loadable members: data of the first one", p)
+    a = A.make_lzx_multi(rng, ps[:2])
+    o = a["fields"]["blockdata1_head"][0]
+    _write("lzx-multi-first-member-data-flip", a, ("flip", o + 30, 0), "reject",
+           "LZX with two loadable entries: data of the first one (data CRC-32 mismatch must not fall through)", p)
     # --- the corrupted file of libxmp's own test suite
     os.makedirs(DIR, exist_ok=True)
     with open(os.path.join(DIR, "repo-corrupted-gz.json"), "w") as f:
